@@ -77,10 +77,12 @@ PROPS = {
     },
     "C12": {
         "props": "TrackVerif.Conv.PropsC12",
-        "streams": [("CV", 1000, 12000)],
-        "clauses": ["cv.shift_constant", "cv.no_crash"],
-        "rule": "metamorphic op: the same generated session converted with and without a start date (impl vs impl), D in {logged day, next day, arbitrary day}; "
-                "sessions start within 20 s of UTC midnight one time in three and arbitrary epochs one time in six; non-trivial = at least one converted lap",
+        "streams": [("CV", 1000, 12000), ("CL", 30, 300)],
+        "clauses": ["cv.shift_constant", "cv.no_crash", "cl.pipeline", "cl.precedence", "cl.exit_status", "cl.spurious_failure"],
+        "rule": "metamorphic op: the same generated session converted with and without a start date (impl vs impl), D in {logged day, next day, arbitrary day}, with and without a time of day, "
+                "carried in UTC or another location; converters and sessions reused within a case; "
+                "sessions start within 20 s of UTC midnight one time in three and arbitrary epochs one time in six; non-trivial = at least one converted lap; "
+                "plus the built `tracktools convert` with --start-date / StartDate under several time zones (TZ), its output compared with the library pipeline for the reported options",
         "trusted_base": KERNEL + TIE + ["time.Time arithmetic modelled as Int nanoseconds; UTC midnight = floor to 86400 s"],
         "assumptions": ["time zone offsets in the log do not exist in TrackAddict's 'UTC Time' column (Unix seconds)"],
     },
